@@ -211,7 +211,32 @@ def run(eng, rep) -> None:
     for kind in ("decode_signal_as", "encode_signal_from"):
         mm = re.search(r"can_%s_\{\{\s*signal\.scalar_type\s*\}\}\((.*?)\);" % kind, ctmpl.source)
         if mm:
-            arity[kind] = mm.group(1).count(",") + 1
+            # arguments written in the template; an attribute that is a property rendering several comma-separated values counts for as many
+            txt = mm.group(1)
+            n_args = re.sub(r"\{\{.*?\}\}", "X", txt).count(",") + 1
+            unknown = False
+            sig_cls = next((c for c in prog.classes.values() if c.name == "CanSignal" and c.module.name.startswith("fcp_can_c")), None)
+            for am in re.finditer(r"\{\{\s*signal\.(\w+)\s*\}\}", txt):
+                pm = sig_cls.methods.get(am.group(1)) if sig_cls is not None else None
+                if pm is None:
+                    continue
+                rets = [r_.value for r_ in walk_local(pm.node) if isinstance(r_, ast.Return) and r_.value is not None]
+                parts = None
+                if len(rets) == 1:
+                    rv = rets[0]
+                    if isinstance(rv, ast.Call) and isinstance(rv.func, ast.Attribute) and rv.func.attr == "join" and isinstance(rv.func.value, ast.Constant) and "," in str(rv.func.value.value) and len(rv.args) == 1:
+                        a0 = rv.args[0]
+                        src = a0.generators[0].iter if isinstance(a0, (ast.GeneratorExp, ast.ListComp)) and len(a0.generators) == 1 and not a0.generators[0].ifs else a0
+                        if isinstance(src, (ast.Tuple, ast.List)):
+                            parts = len(src.elts)
+                    elif isinstance(rv, ast.JoinedStr):
+                        parts = sum(str(v_.value).count(",") for v_ in rv.values if isinstance(v_, ast.Constant)) + 1
+                if parts is None:
+                    unknown = True
+                else:
+                    n_args += parts - 1
+            if not unknown:
+                arity[kind] = n_args
     for T_ in scalars:
         for kind in ("decode_signal_as", "encode_signal_from"):
             name = "can_%s_%s" % (kind, T_)
